@@ -42,6 +42,11 @@ def cases(tier, variants):
             yield dict(c, sc=s, tgt=1, upd=1)
             yield dict(c, sc=s, tgt=0, user="samebuf")
             yield dict(c, sc=s, tgt=0, user="constbuf")
+    # restart letter: a scaler returning exactly 1.0 on a restart changes nothing, is called
+    # once with (checkpoint.x, checkpoint.jac, bounds) and costs no evaluation
+    for c in F.convex_cases(2, variants, (3,), fams=("quart",), hesses=("rot2",)):
+        for k in (0, 2):
+            yield dict(c, part="restart1", k=k)
     for v in variants:
         for fam in F.NONCONVEX:
             for n in (2, 3):
@@ -57,6 +62,8 @@ def cases(tier, variants):
 def run(case):
     from lbfgsb import minimize_lbfgsb, get_gradient_projection_unit_scaling
     p = F.problem_of(case)
+    if case.get("part") == "restart1":
+        return run_restart1(p, case)
     x0c = np.clip(p.x0, p.lb, p.ub)
     g0 = np.asarray(p.g(x0c), float)
     s = SCALES[case["sc"]]
@@ -151,3 +158,33 @@ def run(case):
                           ftarget=tgt))
     return dict(viol=viol, outcome=f"{a.message}|tgt{int(tgt is not None)}",
                 nontrivial=core.case_hash(case) if (a.nit >= 2 and s != 1.0) else None)
+
+
+def run_restart1(p, case):
+    import copy
+    from lbfgsb import minimize_lbfgsb
+    kw = dict(bounds=p.bounds, maxcor=case["maxcor"], ftol=0.0, gtol=1e-10)
+    ck = minimize_lbfgsb(x0=p.x0.copy(), fun=p.f, jac=p.g, maxiter=case["k"], **kw)
+    if ck.nit != case["k"]:
+        return dict(viol=[], outcome="parent_stopped_early", stats={"skipped": 1})
+    viol, calls = [], []
+
+    def scaler(x, g, lb, ub):
+        calls.append((np.array(x, copy=True), np.array(g, copy=True)))
+        return 1.0
+    oa, ob = F.Obs(p.f, p.g, p.lb, p.ub), F.Obs(p.f, p.g, p.lb, p.ub)
+    a = minimize_lbfgsb(x0=np.array(ck.x, copy=True), fun=oa.fun, jac=oa.jac,
+                        checkpoint=copy.deepcopy(ck), maxiter=case["k"] + 3,
+                        gradient_scaler=scaler, **kw)
+    b = minimize_lbfgsb(x0=np.array(ck.x, copy=True), fun=ob.fun, jac=ob.jac,
+                        checkpoint=copy.deepcopy(ck), maxiter=case["k"] + 3, **kw)
+    bad = H.same_state(a, b)
+    if bad or str(a.message) != str(b.message):
+        viol.append(V("restart_with_unit_scaler_differs_from_restart_without", fields=bad))
+    if oa.calls != ob.calls:
+        viol.append(V("evaluation_logs_differ", na=len(oa.calls), nb=len(ob.calls)))
+    if len(calls) != 1:
+        viol.append(V("scaler_called_n_times", n=len(calls)))
+    elif not (np.array_equal(calls[0][0], ck.x) and np.array_equal(calls[0][1], ck.jac)):
+        viol.append(V("scaler_called_with_wrong_arguments", x=calls[0][0], g=calls[0][1]))
+    return dict(viol=viol, outcome="restart1", nontrivial=core.case_hash(case))
